@@ -1792,6 +1792,9 @@ func (db *DB) Dump(w io.Writer, tableNames ...string) error {
 		return err
 	}
 	row := rows[0]
+	if row.Error != "" {
+		return fmt.Errorf("failed to read schema: %s", row.Error)
+	}
 	for _, v := range row.Values {
 		table := v.Parameters[0].GetS()
 		if vhook.Fail("dump.table") {
@@ -1820,19 +1823,29 @@ func (db *DB) Dump(w io.Writer, tableNames ...string) error {
 		if err != nil {
 			return err
 		}
+		if r[0].Error != "" {
+			return fmt.Errorf("failed to read columns of table %s: %s", table, r[0].Error)
+		}
 		var columnNames []string
 		for _, vv := range r[0].Values {
-			columnNames = append(columnNames, fmt.Sprintf(`'||quote("%s")||'`, vv.Parameters[1].GetS()))
+			columnIndent := strings.Replace(vv.Parameters[1].GetS(), `"`, `""`, -1)
+			columnNames = append(columnNames, fmt.Sprintf(`'||quote("%s")||'`, columnIndent))
 		}
 
+		// The table name is also part of a string literal in this query, so any
+		// single quote in it must be doubled there.
 		query := fmt.Sprintf(`SELECT 'INSERT INTO "%s" VALUES(%s)' FROM "%s";`,
-			tableIndent,
+			strings.Replace(tableIndent, `'`, `''`, -1),
 			strings.Join(columnNames, ","),
 			tableIndent)
 		r, err = db.queryWithConn(ctx, commReq(query), false, conn)
 
 		if err != nil {
 			return err
+		}
+		if r[0].Error != "" {
+			// Without its rows the table must not be written as if it were complete.
+			return fmt.Errorf("failed to read rows of table %s: %s", table, r[0].Error)
 		}
 		for _, x := range r[0].Values {
 			y := fmt.Sprintf("%s;\n", x.Parameters[0].GetS())
@@ -1850,6 +1863,9 @@ func (db *DB) Dump(w io.Writer, tableNames ...string) error {
 		return err
 	}
 	row = rows[0]
+	if row.Error != "" {
+		return fmt.Errorf("failed to read indexes, triggers, and views: %s", row.Error)
+	}
 	for _, v := range row.Values {
 		// For indexes, triggers, and views, we could add more sophisticated filtering
 		// based on the table they relate to, but for now include all of them
